@@ -2,6 +2,7 @@
 
 Every random choice comes from the `random.Random` passed in, so a run replays from its seed.
 """
+import zlib
 import itertools
 
 READY_T = "2000-01-01 00:00:00"
@@ -156,10 +157,14 @@ class Spelling:
             a = "q='1'"
         parts = [self.tagname(e.kind), a]
         if e.unwrap:
+            # the attribute counts by its name: a quarter of the elements spell it with a value (chosen by the
+            # element's id, not by the generator's random stream, so that all other choices stay what they were)
+            word = {0: "unwrap-block='true'", 1: "unwrap-block=''", 2: "unwrap-block=1"}.get(
+                zlib.crc32(b"uw%d" % e.id) % 12, "unwrap-block")
             if e.unwrap_pos is None:
-                parts.append("unwrap-block")
+                parts.append(word)
             else:
-                parts.insert(min(e.unwrap_pos, len(parts)), "unwrap-block")
+                parts.insert(min(e.unwrap_pos, len(parts)), word)
         if e.skip:
             parts.insert(min(e.skip_pos, len(parts)), "skip")
         if e.extra:
